@@ -2,26 +2,29 @@
    `c02_file_read` (`plainFileB`), and — executed, as a cross-check of the closed form the theorem states — does the
    reader model's result equal that closed form. Output: `plain=<0|1|-> closed=<ok|differs|-> files=<n>`. -/
 import ZeepVerif.Lemmas.ReadDecide
+import ZeepVerif.Lemmas.ReadDecideX
 import ZeepVerif.Driver.Util
 
 namespace ZeepVerif.Driver.ReadDrv
 open ZeepVerif ZeepVerif.Model ZeepVerif.Lemmas.ReadFile ZeepVerif.Lemmas.ReadDecide ZeepVerif.Lemmas.ReadComp
+open ZeepVerif.Lemmas.ReadExt ZeepVerif.Lemmas.ReadDecideX
 
 def evalOne (files : List XFile) (start : String) : String :=
   match files with
   | [xf] =>
     if xf.name != start then s!"plain=- closed=- files=1"
-    else if coveredFileB xf then
+    else if coveredFileXB xf then
       match xf.tops with
       | some [schema] =>
         let tns := (schema.attr? "targetNamespace").getD ""
         let d := fileDoc schema tns
-        let expected := d.nodes ++ schema.kids.filterMap (nodeOfC d [schema])
+        let expected := nodesFrom d [schema] schema.kids d.nodes
         match readXml [xf] xf.name with
         | .ok got =>
           if got.nodes == expected && got.lookup == d.lookup && got.namespaces == d.namespaces &&
              got.targetNamespaces == d.targetNamespaces && got.current == d.current then
-            (if plainFileB xf then "plain=1 closed=ok files=1" else "plain=1 closed=ok files=1 general")
+            (if plainFileB xf then "plain=1 closed=ok files=1" else if coveredFileB xf then "plain=1 closed=ok files=1 general"
+             else "plain=1 closed=ok files=1 derivation")
           else "plain=1 closed=differs files=1"
         | .error e => "plain=1 closed=differs:" ++ e.name ++ " files=1"
       | _ => "plain=1 closed=differs files=1"
